@@ -6,7 +6,10 @@
 mod util;
 mod c01;
 mod c05;
+mod c07;
+mod c08;
 mod c09;
+mod c10;
 mod stats;
 mod c13;
 mod c16;
@@ -36,6 +39,11 @@ fn main() {
         ("c17", "replay") => c17::replay(rest),
         ("c09", "replay") => c09::replay(rest),
         ("c09", "record") => c09::record(rest),
+        ("c07", "scenario") => c07::scenario(rest),
+        ("c08", "record") => c08::record(rest),
+        ("c10", "schedule") => c10::schedule(rest),
+        ("c10", "config") => c10::config(rest),
+        ("c10", "fault") => c10::fault(rest),
         (p, m) => util::tool_error(&format!("unknown command {p} {m}")),
     }
 }
